@@ -682,6 +682,14 @@ where
             st.x(kind, detail);
         }
     }
+    if st.rng.coin(1, 6) {
+        let (lines, notes) = probes::settings_probe(&mut st.rng);
+        for l in lines { let _ = writeln!(st.out, "{l}"); }
+        for m in notes {
+            let (kind, detail) = m.split_once(": ").unwrap_or((m.as_str(), ""));
+            st.x(kind, detail);
+        }
+    }
     for m in probes::loop_probe(&mut st.rng) {
         let (kind, detail) = m.split_once(": ").unwrap_or((m.as_str(), ""));
         st.x(kind, detail);
